@@ -52,6 +52,7 @@ type member struct {
 	closes int
 	tx, rx uint64
 	feed   chan feedReq
+	failc  chan struct{} // the pending Read fails with a connection error (step memberFail)
 	closed chan struct{}
 	gate   *wgate
 	cerr   bool   // Close reports an error (after closing)
@@ -83,7 +84,7 @@ func (g *wgate) take() (chan string, chan struct{}, bool) {
 }
 
 func newMember(id string, idx, total int) *member {
-	return &member{id: id, idx: idx, total: total, feed: make(chan feedReq), closed: make(chan struct{})}
+	return &member{id: id, idx: idx, total: total, feed: make(chan feedReq), failc: make(chan struct{}), closed: make(chan struct{})}
 }
 
 func (m *member) Read() ([]byte, error) {
@@ -94,6 +95,8 @@ func (m *member) Read() ([]byte, error) {
 		m.mu.Unlock()
 		close(r.ack)
 		return r.bs, nil
+	case <-m.failc:
+		return nil, stderrors.New("read: connection reset by peer")
 	case <-m.closed:
 		return nil, transport.ErrAlreadyClosed
 	}
@@ -635,6 +638,21 @@ func run(sc *h.Scenario) *h.Rec {
 				ret = "timeout" // the transport is not reading this member
 			}
 			rec.Log("MtOp", "a", "memberRead", "src", st.Src, "n", st.N, "ret", ret)
+		case "memberFail":
+			// the member's pending Read fails (its link is gone); the member itself stays open until somebody closes it
+			m, ok := members[st.Src]
+			if !ok {
+				rec.Log("Inconclusive", "why", "memberFail on a non-member")
+				continue
+			}
+			ret := "ok"
+			select {
+			case m.failc <- struct{}{}:
+			case <-time.After(opTimeout):
+				ret = "timeout"
+			}
+			time.Sleep(20 * time.Millisecond) // let the reader goroutine act on the error
+			rec.Log("MtOp", "a", "memberFail", "src", st.Src, "ret", ret)
 		case "read":
 			if pendingRead == nil {
 				c := make(chan readRes, 1)
